@@ -5,6 +5,9 @@ mod common;
 mod conc;
 mod heap;
 mod lang;
+mod types;
+mod parse;
+mod modules;
 mod prims;
 mod bytecode;
 mod host;
@@ -94,6 +97,9 @@ fn main() {
         "conc" => conc::cmd(rest),
         "heap" => heap::cmd(rest),
         "lang" => lang::cmd(rest),
+        "types" => types::cmd(rest),
+        "parse" => { let src = std::fs::read_to_string(&rest[0]).unwrap(); println!("{:?}", parse::dump(&src)); }
+        "modules" => modules::cmd(rest),
         "prims" => prims::cmd(rest),
         _ => usage(),
     }
